@@ -1,4 +1,4 @@
-CONSTANTS DocLen = 2  MaxDecls = 2  MaxFiles = 2  NRuns = 3  Bug = "DupPerAnnotation"  Emit = FALSE
+CONSTANTS DocLen = 2  MaxDecls = 2  MaxFiles = 2  NRuns = 3  Sizes = {}  Bug = "DupPerAnnotation"  Emit = FALSE
 INIT Init
 NEXT Next
 INVARIANT NoMismatch
